@@ -128,9 +128,18 @@ fn is_tchar(b: u8) -> bool {
 /// - field names are tokens (RFC 9110 §5.1); kawa lets `"`, `/` and the
 ///   empty name through;
 /// - `Content-Length` is `1*DIGIT` (RFC 9110 §8.6); kawa parses it with
-///   `usize::from_str`, which accepts a leading `+`.
+///   `usize::from_str`, which accepts a leading `+`;
+/// - `Transfer-Encoding`: the codings of all field lines form one list in
+///   which `chunked` must be the final coding and be applied once, and the
+///   field is not allowed in HTTP/1.0 (RFC 9112 §6.1, §6.3 (4)). kawa only
+///   tests whether a field value ends with "chunked": `xchunked` selected
+///   chunked framing, while `chunked, identity` or `gzip` left the message
+///   framed by Content-Length (or unframed) with the field still forwarded.
 fn h1_request_head_error(request: &GenericHttpStream) -> Option<&'static str> {
     let buf = request.storage.buffer();
+    let mut codings = 0usize;
+    let mut chunked = 0usize;
+    let mut last_is_chunked = false;
     for block in &request.blocks {
         let kawa::Block::Header(header) = block else {
             continue;
@@ -147,6 +156,34 @@ fn h1_request_head_error(request: &GenericHttpStream) -> Option<&'static str> {
             if val.is_empty() || !val.iter().all(u8::is_ascii_digit) {
                 return Some("Invalid Content-Length field value");
             }
+        } else if compare_no_case(key, b"transfer-encoding") {
+            for coding in header.val.data(buf).split(|&b| b == b',') {
+                let start = coding.iter().position(|&b| b != b' ' && b != b'\t');
+                let end = coding.iter().rposition(|&b| b != b' ' && b != b'\t');
+                let (Some(start), Some(end)) = (start, end) else {
+                    return Some("Invalid Transfer-Encoding field value");
+                };
+                let coding = &coding[start..=end];
+                codings += 1;
+                last_is_chunked = compare_no_case(coding, b"chunked");
+                if last_is_chunked {
+                    chunked += 1;
+                } else if !coding.iter().all(|&b| is_tchar(b)) {
+                    return Some("Invalid Transfer-Encoding field value");
+                }
+            }
+        }
+    }
+    if codings > 0 {
+        if !last_is_chunked || chunked != 1 {
+            return Some("Transfer-Encoding: chunked must be the final coding, applied once");
+        }
+        if let kawa::StatusLine::Request {
+            version: kawa::Version::V10,
+            ..
+        } = request.detached.status_line
+        {
+            return Some("Transfer-Encoding in an HTTP/1.0 request");
         }
     }
     None
